@@ -343,10 +343,10 @@ def send_and_read_back(lz4, size, compressible, part):
 
 
 # ------------------------------------------------------------------ work items
-def small_splittings(st):
+def small_splittings(st, anywhere=2, nearb=3):
     L = len(st.data)
-    seen = set(connlib.k_cut_splits(L, 2))
-    seen.update(connlib.k_cut_splits(L, 3, connlib.near(st.boundaries(), 1, L)))
+    seen = set(connlib.k_cut_splits(L, anywhere))
+    seen.update(connlib.k_cut_splits(L, nearb, connlib.near(st.boundaries(), 1, L)))
     seen.add(connlib.all_ones(L))
     return sorted(seen, key=lambda c: (len(c), c))
 
@@ -364,11 +364,18 @@ def run_item(item):
     part = Part()
     kind = item[0]
     if kind == 'small':
+        _, name, lz4, anywhere, nearb, k, n = item
+        st = get_stream('small', name, lz4)
+        for cuts in small_splittings(st, anywhere, nearb)[k::n]:
+            receive(st, cuts, part)
+            part.mark_nontrivial('%s/%s/%d-cuts' % (st.name, lz4, min(len(cuts), 5)))
+    elif kind == 'full':
         _, name, lz4, k, n = item
         st = get_stream('small', name, lz4)
-        for cuts in small_splittings(st)[k::n]:
-            receive(st, cuts, part)
-            part.mark_nontrivial('%s/%s/%d-cuts' % (st.name, lz4, min(len(cuts), 4)))
+        L = len(st.data)
+        for m in range(k, 1 << (L - 1), n):
+            receive(st, connlib.cuts_of_mask(m, L), part)
+        part.mark_nontrivial('%s/%s/all-compositions' % (st.name, lz4))
     elif kind == 'big':
         _, name, lz4, form, r1, r2, k, n = item
         st = get_stream('big', name, lz4, form)
@@ -376,17 +383,18 @@ def run_item(item):
             receive(st, cuts, part)
             part.mark_nontrivial('%s/%s/%d-cuts' % (st.name, lz4, len(cuts)))
     elif kind == 'flip':
-        _, name, lz4, k, n = item
+        _, name, lz4, kcuts, k, n = item
         st = get_stream('small', name, lz4)
         L = len(st.data)
+        splits = list(connlib.k_cut_splits(L, kcuts))
         for bit in range(k, L * 8, n):
-            for cuts in [()] + [(c,) for c in range(1, L)]:
+            for cuts in splits:
                 receive(st, cuts, part, flip=bit)
             part.mark_nontrivial('flip/%s/%s/%d' % (st.name, lz4, bit))
     elif kind == 'out':
         _, lz4, size, compressible = item
         send_and_read_back(lz4, size, compressible, part)
-    if item[-2] == 0 or kind == 'out':
+    if kind == 'out' or item[-2] == 0:
         part.sample({'item': list(item)}, limit=1)
     return part
 
@@ -430,11 +438,17 @@ def run(ctx):
         names = list(SMALL) + (list(SMALL_LZ4_ONLY) if lz4 else [])
         for name in names:
             st = get_stream('small', name, lz4)
-            tot = len(small_splittings(st))
+            anywhere, nearb = (2, 3) if ctx.quick else (3, 4)
+            tot = len(small_splittings(st, anywhere, nearb))
             n = max(1, tot // per)
-            items += [(tot // n, ('small', name, lz4, k, n)) for k in range(n)]
+            items += [(tot // n, ('small', name, lz4, anywhere, nearb, k, n)) for k in range(n)]
+        if ctx.thorough:
+            st = get_stream('small', 'one-empty-frame', lz4)
+            tot = 1 << (len(st.data) - 1)
+            n = max(1, tot // per)
+            items += [(tot // n, ('full', 'one-empty-frame', lz4, k, n)) for k in range(n)]
     bigs = ['MAX-1', 'MAX', 'MAX+1', '2MAX', '2MAX+5', 'small+MAX', 'MAX+small', 'small+MAX+1', '2MAX+5+small']
-    r1, r2 = (8, 1) if ctx.quick else (8, 4)
+    r1, r2 = (8, 1) if ctx.quick else (8, 8)
     bigs_lz4 = bigs if ctx.thorough else ['MAX', 'MAX+1', '2MAX+5', 'small+MAX+1']
     for lz4, form in ((False, 'P'), (True, 'U'), (True, 'C')):
         for name in (bigs if not lz4 else bigs_lz4):
@@ -446,9 +460,10 @@ def run(ctx):
             items += [(tot // n, ('big', name, lz4, form, r1, r2, k, n)) for k in range(n)]
     for lz4, name in FLIP_STREAMS:
         st = get_stream('small', name, lz4)
-        tot = len(st.data) * 8 * len(st.data)
-        n = max(1, tot // per)
-        items += [(tot // n, ('flip', name, lz4, k, n)) for k in range(n)]
+        kcuts = 1 if ctx.quick else 2
+        tot = len(st.data) * 8 * len(list(connlib.k_cut_splits(len(st.data), kcuts)))
+        n = max(1, min(len(st.data) * 8, tot // per))
+        items += [(tot // n, ('flip', name, lz4, kcuts, k, n)) for k in range(n)]
     sizes = [40, 1000, MAX - 1, MAX, MAX + 1, 2 * MAX, 2 * MAX + 5] + ([3 * MAX + 1] if ctx.thorough else [])
     for lz4 in (False, True):
         for size in sizes:
@@ -457,13 +472,13 @@ def run(ctx):
     items = [it for _, it in sorted(ctx.rotate(items), key=lambda x: -x[0])]
     for part in ctx.pmap(run_item, items):
         ctx.merge(part)
-    ctx.cov['rule'] = ('codecs {plain, lz4}; small streams %s (+ lz4 only: %s): all splittings with <=2 cuts anywhere U <=3 cuts within 1 '
-                       'byte of a segment start / header end / header-CRC end / payload end / segment end U one byte per read; big '
+    ctx.cov['rule'] = ('codecs {plain, lz4}; small streams %s (+ lz4 only: %s): all splittings with <=%d cuts anywhere U <=%d cuts within 1 '
+                       'byte of a segment start / header end / header-CRC end / payload end / segment end U one byte per read%s; big '
                        'streams %s in plain form and %s in lz4-left-uncompressed / lz4-compressed form: all 1-cut splittings within %d bytes and '
                        'all 2-cut splittings within %d byte(s) of those boundaries; outgoing frame sizes %s; bit flips: every bit of '
-                       '%d two-segment streams %s x (unsplit + every 1-cut split); non-trivial = distinct (stream, codec, number of cuts) '
+                       '%d two-segment streams %s x every splitting with <= %d cuts; non-trivial = distinct (stream, codec, number of cuts) '
                        'classes, flipped bits, outgoing segment forms'
-                       % (list(SMALL), list(SMALL_LZ4_ONLY), bigs, bigs_lz4, r1, r2, sizes, len(FLIP_STREAMS), [n for _, n in FLIP_STREAMS]))
+                       % (list(SMALL), list(SMALL_LZ4_ONLY), anywhere, nearb, '' if ctx.quick else ' U every composition of the one-empty-frame streams', bigs, bigs_lz4, r1, r2, sizes, len(FLIP_STREAMS), [n for _, n in FLIP_STREAMS], kcuts))
     ctx.cov['exhaustive'] = True
     ctx.assume('stream ids after the handshake are handed out in the order 2, 3, ... (checked at every execution)')
     ctx.assume('a node leaves a segment payload uncompressed exactly when compressing does not make it smaller')
